@@ -33,6 +33,12 @@ def gen_hash():
                             os.path.join(common.VERIF, "vlib", "pool.py"))
 
 
+def byte_flags(cfg, nc=False):
+    """byte type of the driver's views: a function of the config alone (so a replay rebuilds the same thing): `char`
+    (signed) for the C++14 / C++20 drivers and for the release-like one, `unsigned char` elsewhere"""
+    return ["-DRT_BYTE=char"] if (nc or cfg[1] in ("14", "20")) else []
+
+
 def compile_cmd(cfg, out_dir, src, exe=None, syntax_only=False, opt="-O0", extra=()):
     cmd = [cfg[0], std_flag(*cfg), opt, "-I", os.path.join(common.REPO, "sbepp/src"), "-I", HARNESS_DIR, "-isystem", out_dir]
     cmd += list(extra)
@@ -101,7 +107,7 @@ def build_entry(sch, edir, configs, header_configs, sbeppc):
     st["stage"] = "driver"
     for cfg in configs:
         exe = os.path.join(edir, "driver-" + cfg_name(cfg))
-        r = run_compile(compile_cmd(cfg, out_dir, src, exe))
+        r = run_compile(compile_cmd(cfg, out_dir, src, exe, extra=byte_flags(cfg)))
         if r.returncode != 0:
             st["errors"] = first_errors(r.stdout.decode(errors="replace"))
             st["signature"] = "touch-everything-tu-does-not-compile"
@@ -117,7 +123,7 @@ def build_entry(sch, edir, configs, header_configs, sbeppc):
         with open(src_nc, "w") as f:
             f.write(drivergen.Gen(M, checked=False).generate())
         exe = os.path.join(edir, "driver-" + cfg_name(cfg) + "-nc")
-        r = run_compile(compile_cmd(cfg, out_dir, src_nc, exe, opt="-O2", extra=["-DNDEBUG"]))
+        r = run_compile(compile_cmd(cfg, out_dir, src_nc, exe, opt="-O2", extra=["-DNDEBUG"] + byte_flags(cfg, nc=True)))
         if r.returncode != 0:
             st["errors"] = first_errors(r.stdout.decode(errors="replace"))
             st["signature"] = "touch-everything-tu-does-not-compile"
